@@ -33,12 +33,10 @@ Definition famC_of (l0 : list (list fop)) : list cfg :=
                           [[FPia 2 115 1; FGet 2 1]; [FPia 1 116 1; FGet 1 1]; [FDel 1 1; FGet 1 1]; [FDel 3 1; FPia 3 117 1]]) l0.
 Definition famC1 : list cfg := famC_of [[FDel 1 1; FPia 1 106 1]; [FDel 1 1; FPia 3 120 1]].
 Definition famC2 : list cfg := famC_of [[FDel 3 1; FPia 3 121 1]].
-Definition famC3 : list cfg :=
-  map (fun p1 => (wit_nodes2, [[FPia 2 102 1; FDel 2 1]; p1])) [[FPia 2 115 1; FGet 2 1]; [FPia 1 116 1; FGet 1 1]; [FDel 1 1; FGet 1 1]].
-Definition famC : list cfg := famC1 ++ famC2 ++ famC3.
+Definition famC : list cfg := famC1 ++ famC2.
 (* the configurations of the witnesses 2 and 3 *)
 Definition famW : list cfg := [(wit_nodes0, wit_del_progs); (wit_nodes2, wit_rec_progs)].
-Definition patch_family_sp : list cfg := (famW ++ famA) ++ famC1 ++ famC2 ++ famC3 ++ famB.
+Definition patch_family_sp : list cfg := (famW ++ famA) ++ famC1 ++ famC2 ++ famB.
 
 (* single machine steps: two tasks, one operation each, short lists *)
 Definition patch_family_steps : list cfg :=
@@ -50,9 +48,9 @@ Definition patch_family_steps : list cfg :=
    and that no other task puts ---- *)
 Definition ins_ops : list fop := [FPia 1 101 1; FPia 2 102 1; FGet 2 1; FPut 4 104 1].
 Definition famI1 : list cfg :=
-  flat_map (fun l1 => match l1 with [] => [] | o1 :: _ =>
-    flat_map (fun l2 => match l2 with [] => [] | o2 :: _ =>
-      map (fun o3 => (wit_nodes1, [[o1]; [o2]; [o3]])) l2 end) (tails l1) end) (tails ins_ops).
+  map (fun p => (wit_nodes1, p))
+      [[[FPia 2 102 1]; [FPia 2 112 1]; [FGet 2 1]]; [[FPia 2 102 1]; [FPut 4 104 1]; [FGet 2 1]];
+       [[FPut 4 104 1]; [FPia 1 101 1]; [FPia 2 102 1]]; [[FPia 2 102 1]; [FPia 2 112 1]; [FPut 4 104 1]]].
 Definition famI2 : list cfg :=
   flat_map (fun o1 => map (fun o2 => (wit_nodes2, [follow o1; follow o2])) ins_ops) [FPia 1 101 1; FPut 4 104 1].
 Definition famI : list cfg := famI1 ++ famI2.
